@@ -165,7 +165,7 @@ func setup(run *lib.Run, r *lib.RNG, idx int) *conf {
 		c.denyRules = lib.Pick(r, denyPool)
 	}
 	c.localhost = lib.Pick(r, []string{"deny", "deny", "allow"})
-	c.timeframe = lib.Pick(r, []string{"off", "off", "covers", "excludes"})
+	c.timeframe = lib.Pick(r, []string{"off", "off", "covers", "excludes", "covers-from-this-hour", "excludes-until-this-hour"})
 	c.upstream = r.Chance(1, 3)
 	c.mitm = r.Chance(1, 3)
 	// hosts file with generated loopback aliases (mixed case, IPv6 loopback lines)
@@ -220,6 +220,10 @@ func setup(run *lib.Run, r *lib.RNG, idx int) *conf {
 			switch c.timeframe {
 			case "covers": // today's and tomorrow's weekday, whole day: immune to hour/day roll-over
 				cfg.AllowTimeFrame = []ruleset.TimeFrameEntry{{Weekday: now.Weekday(), HourStart: 0, HourEnd: 24}, {Weekday: (now.Weekday() + 1) % 7, HourStart: 0, HourEnd: 24}}
+			case "covers-from-this-hour": // window starts at the current local hour (and tomorrow)
+				cfg.AllowTimeFrame = []ruleset.TimeFrameEntry{{Weekday: now.Weekday(), HourStart: now.Hour(), HourEnd: 24}, {Weekday: (now.Weekday() + 1) % 7, HourStart: 0, HourEnd: 24}}
+			case "excludes-until-this-hour": // window ended when the current local hour began
+				cfg.AllowTimeFrame = []ruleset.TimeFrameEntry{{Weekday: now.Weekday(), HourStart: 0, HourEnd: now.Hour()}, {Weekday: (now.Weekday() + 3) % 7, HourStart: 0, HourEnd: 24}}
 			case "excludes": // only weekdays that are neither today nor tomorrow
 				cfg.AllowTimeFrame = []ruleset.TimeFrameEntry{{Weekday: (now.Weekday() + 3) % 7, HourStart: 0, HourEnd: 24}, {Weekday: (now.Weekday() + 4) % 7, HourStart: 9, HourEnd: 17}}
 			}
@@ -304,7 +308,7 @@ func (c *conf) snap() ledger {
 
 // decision: which controls refuse this request.
 func (c *conf) failing(host string, cr credCase) (codes []int, unsure bool) {
-	if c.timeframe == "excludes" {
+	if strings.HasPrefix(c.timeframe, "excludes") {
 		codes = append(codes, 451)
 	}
 	if c.auth {
@@ -429,6 +433,25 @@ func (q *reqSpec) raw(r *lib.RNG, scheme string) []byte {
 func main() {
 	run := lib.Start("C04", "generated configurations (basic-auth on/off with passwords containing ':' '@' or empty; deny-domains include/exclude lists; proxy-localhost deny/allow; allow-time-frame off/covers now/excludes now; upstream proxy; MITM; generated hosts file with mixed-case and IPv6 loopback aliases) x generated requests (GET/POST/PUT/HEAD/DELETE/CONNECT, origin/absolute form, HTTP/1.0 and 1.1, 18 credential variants, denied names in any case, 13 loopback/unspecified literals, hosts aliases in any case, with/without port, several requests per keep-alive connection, inner requests of MITM'd tunnels); reference decision function + dial log + accept/byte ledgers of every scripted peer; distinct = (config controls, method, host class, credential variant, position, inner) signatures")
 	root := run.RNG()
+	// The whole process runs in a local zone with a non-whole-hour offset, chosen so that the
+	// local wall clock is a few minutes past the hour (no hour roll-over during the run) while
+	// the UTC clock is further past its own hour: time-frame windows that end or start at the
+	// current local hour then separate "hour of the local wall clock" from anything computed
+	// on the absolute instant.
+	{
+		now := time.Now().UTC()
+		mUTC := now.Minute()*60 + now.Second()
+		mLocal := 5 * 60
+		if mUTC-60 < mLocal {
+			mLocal = mUTC - 60
+		}
+		if mLocal < 0 {
+			mLocal = 10 * 60
+		}
+		off := 5*3600 + (mLocal - mUTC)
+		time.Local = time.FixedZone("VERIF", off)
+		run.Assume(fmt.Sprintf("process local zone set to UTC%+d s (local minute %d, UTC minute %d)", off, mLocal/60, mUTC/60))
+	}
 	nConf := run.N(36, 400)
 	nReq := 50
 	if !run.Quick() {
@@ -450,6 +473,9 @@ func main() {
 		runConf(run, r, c, base, nReq)
 		c.close()
 	}
+	timeframePart(run, root)
+	run.Floor("timeframe_decisions", 10000)
+	run.Floor("timeframe_inside", 500)
 	run.Floor("refused_checked", int64(nConf*nReq/6))
 	run.Floor("forwarded_checked", int64(nConf*nReq/12))
 	run.Floor("refused_407", 20)
